@@ -1,11 +1,4 @@
-// ===== prelude/rank.rs — operator specs for the extracted `Rank` =====
-// The extracted `impl Add<usize> for Rank` body is VERIFIED against add_spec/add_req.
-impl vstd::std_specs::ops::AddSpecImpl<usize> for Rank {
-    open spec fn obeys_add_spec() -> bool { true }
-    open spec fn add_req(self, rhs: usize) -> bool { self.0 + rhs <= usize::MAX }
-    open spec fn add_spec(self, rhs: usize) -> Rank { Rank((self.0 + rhs) as usize) }
-}
-
+// ===== prelude/rank.rs — comparison specs for the extracted `Rank` =====
 // ASSUMED: `#[derive(PartialEq, Eq, PartialOrd, Ord)]` on the one-field tuple struct `Rank` compares
 // the field (std's derive contract; additionally proved by a full-domain Kani harness, kani/).
 impl vstd::std_specs::cmp::PartialEqSpecImpl for Rank {
@@ -32,3 +25,6 @@ impl vstd::std_specs::cmp::OrdSpecImpl for Rank {
 // ASSUMED (std documentation): cmp::max returns the second argument unless the first is greater.
 pub assume_specification<T: Ord> [core::cmp::max] (a: T, b: T) -> (r: T)
     ensures T::obeys_cmp_spec() ==> r == (if a.cmp_spec(&b) == core::cmp::Ordering::Greater { a } else { b });
+
+pub assume_specification<T: Ord> [core::cmp::min] (a: T, b: T) -> (r: T)
+    ensures T::obeys_cmp_spec() ==> r == (if a.cmp_spec(&b) == core::cmp::Ordering::Greater { b } else { a });
